@@ -74,6 +74,12 @@ def reqresp_oracle(ix: Index, scn: dict) -> list[Violation]:
         t_deadline = op.t0 + timeout
         closed = ix.closed_seq.get(c)
         closed_turn = ix.seq_turn[closed] if closed is not None else None
+        # a call outstanding when the connection closes fails with the connection's error then (one turn for the
+        # waiter to resume), not at its own timeout later on
+        if wrote and closed is not None and op.s0 < closed and (op.s1 is None or closed < op.s1) and not (stop_key is not None and stop_key[0] <= closed_turn):
+            last_turn = ix.seq_turn[op.s1] if op.s1 is not None else (ix.run_end[1] if ix.run_end else closed_turn)
+            if last_turn > closed_turn + 1 and not ((actor_i := (op.actor, op.i)) in cancel_turns and cancel_turns[actor_i] <= closed_turn + 1):
+                out.append(Violation("not-failed-at-close", "pending" if op.s1 is None else str((op.err or {}).get("cls")), f"{op.actor} was outstanding when the connection closed at turn {closed_turn} but " + ("was still pending at the end of the run" if op.s1 is None else f"ended only at turn {last_turn} with {(op.err or {}).get('cls')}")))
         if op.s1 is None:
             end_t = ix.run_end[2] if ix.run_end else 0
             if end_t > t_deadline + 1e-6:
@@ -189,6 +195,13 @@ def gen_c11(rng: random.Random) -> dict:
             events.append({"at": trig, "do": "dev", "act": {"raw_hex": "ffffff" if "noise_psk" not in client else "0300aa", "latency": 0.0}})
         else:
             events.append({"at": trig, "do": "poke", "what": "cancel", "target": w, "phase": phase})
+    if rng.random() < 0.3:
+        # a plain subscriber on the calls' response types, unsubscribed (twice: the callable is idempotent) around the calls
+        w, t0, timeout, types, key = pick(rng, calls)
+        ssteps = [{"do": "add_cb", "sid": "s0", "types": rng.sample(types, rng.randint(1, len(types))), "behaviors": []}, {"do": "sleep", "d": pick(rng, [0.0, 0.05, 0.3])}, {"do": "remove_cb", "sid": "s0"}]
+        for _ in range(rng.randint(1, 2)):
+            ssteps += [{"do": "sleep", "d": pick(rng, [0.0, 0.02, 0.1, 0.3, 0.6])}, {"do": "remove_cb", "sid": "s0"}]
+        actors.append({"id": "s", "at": {"t": t0 - pick(rng, [0.4, 0.2, 0.05, 0.0])}, "steps": ssteps})
     return {
         "family": "reqresp",
         "knobs": gen_knobs(rng),
